@@ -48,8 +48,9 @@ type step struct {
 }
 
 type script struct {
-	ID    string   `json:"id"`
-	Steps []step   `json:"steps"`
+	ID    string             `json:"id"`
+	Steps []step             `json:"steps"`
+	Flows map[string]flowCfg `json:"flows,omitempty"` // the flow table of the family the script belongs to
 }
 
 type input struct {
@@ -357,7 +358,11 @@ func (r *runner) do(i int, s step) (string, error) {
 			}
 		}
 		r.dropNext = s.Drop
-		pg, err = r.browser(s.B).get(target, extra...)
+		if len(extra) > 0 {
+			pg, err = r.browser(s.B).getWith(target, extra) // the tampered browser sends ONLY the other tenant's cookie
+		} else {
+			pg, err = r.browser(s.B).get(target)
+		}
 		r.dropNext = ""
 		if err != nil {
 			return "", err
@@ -590,7 +595,11 @@ func TestDriver(t *testing.T) {
 	_ = context.Background()
 	enc := json.NewEncoder(out)
 	for _, sc := range in.Scripts {
-		res := w.runScript(in.Flows, sc, in.Corrupt)
+		fl := in.Flows
+		if sc.Flows != nil {
+			fl = sc.Flows
+		}
+		res := w.runScript(fl, sc, in.Corrupt)
 		if err := enc.Encode(res); err != nil {
 			t.Fatal(err)
 		}
